@@ -196,13 +196,21 @@ def scoping_templates():
         inner.append(LET("after", V("step")))
         if use_mid:
             inner.append(LET("mapped", C("map_arr", [{"k": "arr", "items": [I(1), I(2)]}, V("step")])))
-        ret = OP("add", OP("mul", CV(V("after"), V("k")), I(10000)), C("step", [V("k")]))
+        # the results travel as a tuple (XrEval leaves products with an operand above 46340 open)
+        items = [CV(V("after"), V("k")), C("step", [V("k")])]
         if use_before:
-            ret = OP("add", ret, OP("mul", CV(V("before"), V("k")), I(1000000)))
+            items.append(CV(V("before"), V("k")))
         if use_mid:
-            ret = OP("add", ret, C("get", [V("mapped"), I(1)]))
-        out.append([LET("step", lam1), LET("r_outer", CV(V("step"), I(5))), FN("scale", [P("k", "int")], "int", ret, decls=inner),
+            items.append(C("get", [V("mapped"), I(1)]))
+        ret = {"k": "tup", "items": items}
+        rty = "(" + ", ".join(["int"] * len(items)) + ")"
+        out.append([LET("step", lam1), LET("r_outer", CV(V("step"), I(5))), FN("scale", [P("k", "int")], rty, ret, decls=inner),
                     LET("r0", C("scale", [I(2)])), LET("r1", CV(V("step"), I(7)))])
+        # the same one function level down (the outer value is a local of an enclosing function, not a global)
+        twice = FN("twice", [P("k", "int")], "int", CV(V("f"), CV(V("g"), V("k"))), decls=[LET("f", V("step")), LET("g", V("step"))])
+        out.append([FN("m", [], "(int, %s)" % rty, {"k": "tup", "items": [C("twice", [I(1)]), C("scale", [I(2)])]},
+                       decls=[LET("step", lam1), FN("scale", [P("k", "int")], rty, ret, decls=inner), twice]),
+                    LET("r0", C("m", []))])
     # the same with a let shadowing a captured outer function value, and a parameter shadowing it one level further in
     out.append([FN("base", [P("v", "int")], "int", OP("add", V("v"), I(1))),
                 FN("scale", [P("k", "int")], "int", OP("add", OP("mul", CV(V("f0"), V("k")), I(1000)), CV(V("f1"), V("k"))),
